@@ -72,6 +72,7 @@ func runC09(r *core.Run) {
 
 	alignHistories(r, []string{"sym:1:-1:-1:0", "sym:2:-3:-2:0", "asym:1:0", "exact:fine:0"}, judgeOptimal(r, nil))
 	matrixMutationHistories(r, true, judgeOptimal(r, nil))
+	alignWideAlphabets(r, judgeOptimal(r, nil))
 	alignAllLengthPairs(r, "sym:2:-1:-1:0", judgeOptimal(r, nil))
 	alignBufferReuse(r, []string{"sym:1:-1:-1:0", "sym:2:-3:-2:0"})
 	alignAllBytes(r, true, []string{"2:-1:-1:0", "1:-3:0:0"}, judgeOptimal(r, nil))
